@@ -23,12 +23,16 @@ BIG = ["imep", "team", "pop", "summ", "cache"]
 REST = {"fit": "-"}          # unread rest after load (hex); default "0a" (the final newline)
 
 COUNTS = {   # objects per type: (quick, thorough)
-    "hash": (300, 3000), "fit": (1500, 20000), "iga": (600, 6000), "ide": (600, 6000),
-    "mati": (300, 3000), "matu": (300, 3000), "dist": (400, 4000),
-    "imep": (800, 8000), "team": (200, 2000), "pop": (150, 1500), "summ": (300, 3000),
-    "cache": (300, 3000),
+    "hash": (1000, 20000), "fit": (12000, 300000), "iga": (6000, 150000), "ide": (6000, 150000),
+    "mati": (3000, 60000), "matu": (3000, 60000), "dist": (4000, 80000),
+    "imep": (9000, 200000), "team": (1500, 30000), "pop": (1500, 30000), "summ": (3000, 60000),
+    "cache": (3000, 60000),
 }
 NEEDS_CTX = {"imep", "team", "pop", "summ"}
+
+
+def unhex(h):
+    return "" if h in ("-", "") else bytes.fromhex(h).decode("latin1")
 
 
 def inc_hash():
@@ -36,7 +40,7 @@ def inc_hash():
     h = hashlib.sha256()
     hd = os.path.join(C.ROOT, "harness")
     for f in sorted(os.listdir(hd)):
-        if f.startswith("c11_") and f.endswith(".h"):
+        if (f.startswith("c11_") or f.startswith("c12_")) and f.endswith(".h"):
             h.update(open(os.path.join(hd, f), "rb").read())
     return h.hexdigest()[:16]
 
@@ -139,6 +143,7 @@ def run(chk, replay=None):
         results = list(ex.map(work, jobs))
 
     ndis = 0
+    cross = []
     for (seed, n, typ, index), rc, se, objs, ans, pending in results:
         gen = [seed, n, typ]
         if rc != 0:
@@ -166,23 +171,42 @@ def run(chk, replay=None):
                               f"({o['verdict']}); object = {o['ints'][:300]}", rep, tags=tags)
             if ans is not None:
                 msave, mload = ans[k]
-                rest = REST.get(typ, "0a")
-                if typ == "cache":       # the last fitness line is read with getline: nothing is left
-                    rest = "0a" if o["ints"].split()[2] == "0" else "-"
-                want = "ok " + o["ints"] + " | " + rest
-                agree = (msave == o["hex"]) and (mload == want if o["verdict"] == "ok" else True)
-                if o["verdict"] != "ok" and o["verdict"] == "bad:load-failed" and mload != "fail":
-                    agree = False
-                if not agree:
+                # (A) the model parses vita's bytes to the same object, leaving only white space unread
+                if o["verdict"] == "ok":
+                    mo, _, mrest = mload.partition(" | ")
+                    a_ok = mo == "ok " + o["ints"] and all(c in " \n\t\r" for c in unhex(mrest.strip()))
+                elif o["verdict"] == "bad:load-failed":
+                    a_ok = mload == "fail"
+                else:
+                    a_ok = True
+                # (B) vita parses the model's bytes to the same object: trivially so when the bytes are
+                #     identical; otherwise checked below with the real load (format drift such as an extra
+                #     newline is harmless, a different token order is not)
+                if msave != o["hex"] and o["verdict"] == "ok":
+                    cross.append((typ, gen, i, o, msave))
+                    chk.count("bytes_differ:" + typ)
+                if not a_ok:
                     ndis += 1
                     if ndis <= 3:
-                        what = "save" if msave != o["hex"] else "load"
-                        broken.append(f"model and code disagree on {what} of a {typ} object (gen {gen}, index {i}): "
-                                      f"model save {msave[:200]} code {o['hex'][:200]}; model load {mload[:200]} "
-                                      f"expected {want[:200]}; the code's own round trip says {o['verdict']}")
+                        broken.append(f"the model's load disagrees with the code on the bytes vita wrote for a {typ} "
+                                      f"object (gen {gen}, index {i}): model load {mload[:300]} expected ok "
+                                      f"{o['ints'][:300]}; the code's own round trip says {o['verdict']}")
             if i % 211 == 0:
                 chk.sample({"type": typ, "object": o["ints"][:200], "bytes": bytes.fromhex(o["hex"]).decode("latin1")[:200]
                             if o["hex"] != "-" else "", "oracle": o["verdict"]}, limit=12)
+    if cross:
+        ld = C.build_harness("c12_load", "asan", extra_flags=["-DVERIF_INC=" + inc_hash()])
+        reqs = [f"ld {typ} {o['ints'].split()[0] if typ == 'cache' else 1} {msave}" for typ, _, _, o, msave in cross]
+        outs, deaths = C.run_lines(ld, reqs, timeout=3000)
+        for (typ, gen, i, o, msave), a in zip(cross, outs):
+            t = a.split()
+            got = " ".join(t[2:]) if len(t) > 2 else ""
+            if not (t and t[0] == "ok" and got == o["ints"]):
+                ndis += 1
+                if ndis <= 3:
+                    broken.append(f"model and code disagree on save of a {typ} object (gen {gen}, index {i}): the real "
+                                  f"load does not read the model's bytes back to the object: model save {msave[:300]} "
+                                  f"code save {o['hex'][:300]} real load of the model's bytes: {a[:300]}")
     chk.cov["model_vs_code_disagreements"] = ndis
 
     if broken and not [v for v in chk.violations if not v[2]]:
